@@ -85,7 +85,7 @@ class Tree:
                 p = rel_dir / nm
                 p.parent.mkdir(parents=True, exist_ok=True)
                 n += 1
-                text = "" if nm == "__init__.py" else f"K{n}"
+                text = f"# K{n}" if nm == "__init__.py" else f"K{n}"   # importable, still unique
                 p.write_text(text, encoding="utf-8")
                 self.content[str(p)] = n
                 if text:
